@@ -630,6 +630,13 @@ def check_sorting(prog, rep):
             want_ev = "[%s.evalfn(numpy.array([e])) for e in %s.decn_space]" % (prob, prob)
             if not any(dump(n) == want_ev or (len(n.generators) == 1 and dump(n.generators[0].iter) == "%s.decn_space" % prob and "evalfn" in dump(n.elt)
                                                and not n.generators[0].ifs) for n in lc):
+                # the same scan written as a loop: for e in prob.decn_space: ... prob.evalfn(numpy.array([e])) ...
+                loops_ = [n for n in walk_no_nested(f.node) if isinstance(n, ast.For) and dump(n.iter) == "%s.decn_space" % prob
+                          and any(isinstance(c_, ast.Call) and dump(c_.func) == "%s.evalfn" % prob for c_ in ast.walk(n))]
+                if loops_:
+                    rep.unrec("R6-sorting", construct, "members are scored in an explicit loop over the candidate set (another formulation of the scan)")
+                    good = False
+                    continue
                 rep.violate("R6-sorting", construct, "members are not scored one at a time over the whole candidate set", where(f), want_ev, "other")
                 good = False
             elif not any("zip(*" in x and x.endswith("#0") for x in src):
